@@ -426,6 +426,50 @@ def fallback_search(res):
              sig='C11:fallback-root-search-always-raises')
 
 
+def magnitudes_and_config(res):
+    """(1) normal marginals whose mean is thousands of standard deviations (a temperature of 293.15 +- 0.05 K, a pressure of 101325 +- 10 Pa,
+    time stamps): the latent correlation of normal marginals IS the prescribed one (theorem), here to 1e-9 (the unchanged tree: 1e-12), and
+    getX is the linear map mu + sigma L u; (2) heavy-tailed lognormal pairs (sigma_ln 2 … 2.5) under globalConfig.atol = 8, 1, 0: the
+    configured digits concern the cycle counters, the latent correlation stays the closed form (at 3e-5, the accuracy of the quadrature)"""
+    import numpy as np
+    from scipy import stats
+    from ffpack import rpm
+    from ffpack.config import globalConfig
+    for (m1, s1, m2, s2, r) in ((293.15, 0.05, 101325.0, 10.0, 0.5), (5e4, 1.0, 1e6, 1.0, -0.3), (1e3, 1.0, 2e4, 3.0, 0.7), (1.7e9, 30.0, 4e5, 2.0, 0.4)):
+        case = {'marginals': [['norm', m1, s1], ['norm', m2, s2]], 'rho': r}
+        res.evaluations += 1
+        res.stat('normal_marginals_mean_far_above_std')
+        try:
+            nat = rpm.NatafTransformation([stats.norm(m1, s1), stats.norm(m2, s2)], [[1.0, r], [r, 1.0]])
+            X, _ = nat.getX([0.5, -1.25])
+        except Exception as e:  # noqa
+            fail(res, 'NatafTransformation raised on normal marginals with a large mean / std ratio: ' + repr(e)[:100], case, None)
+            continue
+        L = np.linalg.cholesky(np.array([[1.0, r], [r, 1.0]]))
+        z = L @ np.array([0.5, -1.25])
+        want = [m1 + s1 * z[0], m2 + s2 * z[1]]
+        if abs(float(nat.rhoZ[0][1]) - r) > 1e-9 or any(abs(a - b) > 1e-7 * sd for a, b, sd in zip(X, want, (s1, s2))):
+            fail(res, 'normal marginals: latent correlation differs from the prescribed one / getX is not mu + sigma L u', case,
+                 {'rhoZ': float(nat.rhoZ[0][1]), 'X': [float(v) for v in X], 'expected_X': want})
+    old = (globalConfig.atol, globalConfig.rtol)
+    for (a1, a2, r) in ((2.0, 2.0, 0.1), (2.5, 2.0, 0.3), (2.2, 2.2, 0.2)):
+        closed = math.log(1 + r * math.sqrt(math.exp(a1 * a1) - 1) * math.sqrt(math.exp(a2 * a2) - 1)) / (a1 * a2)
+        for digits in (8, 1, 0):
+            case = {'marginals': [['lognorm', a1], ['lognorm', a2]], 'rho': r, 'globalConfig.atol': digits, 'closed_form': closed}
+            res.evaluations += 1
+            res.stat('heavy_tailed_lognormal_pair_atol_%d' % digits)
+            try:
+                globalConfig.atol = digits
+                nat = rpm.NatafTransformation([stats.lognorm(a1), stats.lognorm(a2)], [[1.0, r], [r, 1.0]])
+            except Exception as e:  # noqa
+                fail(res, 'NatafTransformation raised on a heavy-tailed lognormal pair: ' + repr(e)[:100], case, None)
+                continue
+            finally:
+                globalConfig.atol, globalConfig.rtol = old
+            if abs(float(nat.rhoZ[0][1]) - closed) > 3e-5:
+                fail(res, 'latent correlation differs from the lognormal closed form', case, float(nat.rhoZ[0][1]))
+
+
 def other_quadrature_first():
     """the very first transformations of the process are built with non-default quadrature settings (their own results are not looked
     at): everything that follows uses the defaults and must not depend on what was built before"""
@@ -462,7 +506,7 @@ def run(tier, seed):
             last['args'] = {'marginals': repr(distObjs)[:200], 'corrMat': repr(corrMat)[:200]}
         return orig_init(self, distObjs, corrMat, *a, **k)
     streams = [(explore, (res, random.Random(seed), n)), (same_family, (res, random.Random(seed + 1))), (sparse_corr, (res,)), (high_correlation, (res,)),
-               (pdf_tails, (res,)), (shifted_lognormal, (res,)), (boundary_and_sampling, (res, random.Random(seed + 2))), (fallback_search, (res,))]
+               (pdf_tails, (res,)), (shifted_lognormal, (res,)), (boundary_and_sampling, (res, random.Random(seed + 2))), (fallback_search, (res,)), (magnitudes_and_config, (res,))]
     with mock.patch.object(rpm.NatafTransformation, '__init__', spy):
         for fn, args in streams:
             try:
